@@ -1,0 +1,58 @@
+package thriftproto
+
+import (
+	"encoding/binary"
+	"io"
+
+	"git.apache.org/thrift.git/lib/go/thrift"
+	"github.com/henrylee2cn/erpc/v6/socket"
+)
+
+// frameRW sits between the connection and the thrift header transport.
+// The header transport reads through its own buffered reader, which would
+// otherwise read ahead into the following frames; frameRW never hands out
+// more than the rest of the current frame, so the bytes read during one
+// Unpack are exactly the bytes of that message, and a frame that announces a
+// size above the message size limit is refused before its payload is read.
+// A peer that does not use the framed transport is passed through unchanged.
+type frameRW struct {
+	io.ReadWriter
+	head  [4]byte
+	nHead int   // number of frame header bytes seen so far
+	left  int64 // payload bytes left in the current frame; <0: unframed peer
+}
+
+func (f *frameRW) Read(p []byte) (int, error) {
+	if f.left < 0 || len(p) == 0 {
+		return f.ReadWriter.Read(p)
+	}
+	if f.left > 0 {
+		if int64(len(p)) > f.left {
+			p = p[:f.left]
+		}
+		n, err := f.ReadWriter.Read(p)
+		f.left -= int64(n)
+		return n, err
+	}
+	// frame header
+	if len(p) > len(f.head)-f.nHead {
+		p = p[:len(f.head)-f.nHead]
+	}
+	n, err := f.ReadWriter.Read(p)
+	f.nHead += copy(f.head[f.nHead:], p[:n])
+	if f.nHead < len(f.head) {
+		return n, err
+	}
+	f.nHead = 0
+	size := binary.BigEndian.Uint32(f.head[:])
+	switch {
+	case size&thrift.VERSION_MASK == thrift.VERSION_1,
+		f.head[0] == thrift.COMPACT_PROTOCOL_ID && f.head[1]&thrift.COMPACT_VERSION_MASK == thrift.COMPACT_VERSION:
+		f.left = -1
+	case uint64(size)+uint64(len(f.head)) > uint64(socket.MessageSizeLimit()):
+		return n, socket.ErrExceedMessageSizeLimit
+	default:
+		f.left = int64(size)
+	}
+	return n, err
+}
